@@ -24,6 +24,7 @@ pub fn diag_strings(d: &Diagnostics) -> Vec<String> {
     d.iter().map(|x| format!("{:?}: {}", x.level, x.message)).collect()
 }
 
+#[allow(dead_code)]
 pub enum Front {
     ParseErr(String),
     BuildPanic(String),
@@ -51,30 +52,30 @@ pub enum Part {
 }
 
 pub enum Staged {
-    ParseErr(String),
-    BuildPanic(String),
-    BuildErr(Vec<String>),
-    MergeErr(String),
-    ElimPanic { built: Abs, msg: String },
-    AdjacentHandoffs { built: Abs, flat: Abs },
-    Partitioned { built: Abs, flat: Abs, uses: TokenStream, warnings: Vec<String>, part: Part },
+    ParseErr,
+    BuildPanic,
+    BuildErr,
+    MergeErr,
+    ElimPanic,
+    AdjacentHandoffs,
+    /// `flat` = abstract copy of the graph handed to `partition_graph`
+    Partitioned { flat: Abs, part: Part },
 }
 
 /// The macro's pipeline, by hand, up to and including `partition_graph`.
 pub fn stages(text: &str) -> Staged {
     let out = match front(text) {
-        Front::ParseErr(e) => return Staged::ParseErr(e),
-        Front::BuildPanic(e) => return Staged::BuildPanic(e),
-        Front::BuildErr(e) => return Staged::BuildErr(e),
+        Front::ParseErr(_) => return Staged::ParseErr,
+        Front::BuildPanic(_) => return Staged::BuildPanic,
+        Front::BuildErr(_) => return Staged::BuildErr,
         Front::Built(o) => o,
     };
-    let FlatGraphBuilderOutput { mut flat_graph, uses, diagnostics } = out;
-    let built = abstract_graph(&flat_graph);
-    if let Err(d) = flat_graph.merge_modules() {
-        return Staged::MergeErr(d.message);
+    let FlatGraphBuilderOutput { mut flat_graph, .. } = out;
+    if flat_graph.merge_modules().is_err() {
+        return Staged::MergeErr;
     }
-    if let Err(msg) = catch(|| eliminate_extra_unions_tees(&mut flat_graph)) {
-        return Staged::ElimPanic { built, msg };
+    if catch(|| eliminate_extra_unions_tees(&mut flat_graph)).is_err() {
+        return Staged::ElimPanic;
     }
     let flat = abstract_graph(&flat_graph);
     // Same check as `build_dfir_code`: adjacent handoffs are an error.
@@ -85,16 +86,14 @@ pub fn stages(text: &str) -> Staged {
         }
     }
     if adjacent {
-        return Staged::AdjacentHandoffs { built, flat };
+        return Staged::AdjacentHandoffs;
     }
-    let warnings = diag_strings(&diagnostics);
     let part = match catch(move || partition_graph(flat_graph)) {
         Err(p) => Part::Panic(p),
         Ok(Ok(g)) => Part::Ok(g),
         Ok(Err(e)) => Part::Err { msg: e.diagnostic.message.clone(), flat: e.flat_graph },
     };
-    let uses_ts = quote! { #( #uses )* };
-    Staged::Partitioned { built, flat, uses: uses_ts, warnings, part }
+    Staged::Partitioned { flat, part }
 }
 
 /// Result of `as_code` rendered to strings.
@@ -134,7 +133,8 @@ pub fn one_shot(text: &str) -> OneShot {
         Err(e) => return OneShot { class: "parse-err", graph_json: String::new(), code: String::new(), diags: vec![e.to_string()] },
     };
     match catch(|| build_dfir_code(code, &root())) {
-        Err(p) => OneShot { class: "panic", graph_json: String::new(), code: String::new(), diags: vec![p] },
+        // only the first line: the rest of an assertion message prints spans as process-global byte offsets
+        Err(p) => OneShot { class: "panic", graph_json: String::new(), code: String::new(), diags: vec![p.lines().next().unwrap_or("").to_string()] },
         Ok(Err(d)) => OneShot {
             class: "err",
             graph_json: String::new(),
